@@ -5,6 +5,7 @@ import (
 	"fmt"
 	"io"
 	"log"
+	"math"
 	"runtime"
 	"strconv"
 	"strings"
@@ -31,6 +32,11 @@ import (
 
 func ParseQuery(q string) (pq *proto.Query, err error) {
 	p := newParser(q)
+
+	// The lexer runs in its own goroutine and blocks while nobody receives its items:
+	// consume whatever it still has to say, so that it terminates also when parsing
+	// stopped early (syntax error, or EOF not read).
+	defer p.lexer.drain()
 
 	defer p.recover(&err)
 
@@ -81,6 +87,10 @@ func (p *parser) parse() (pq *proto.Query, err error) {
 		p.next()
 		groupBy = p.parseFieldList()
 
+	}
+
+	if p.peek().typ != itemEOF {
+		p.errorf("unexpected %s after the end of the query", p.next())
 	}
 
 	pq = &proto.Query{
@@ -222,8 +232,8 @@ func (p *parser) parseComparison() *proto.Query_Expression {
 	switch p.peek().typ {
 	case itemPlaceholder:
 		placeholder = decodePlaceholder(p.next().val)
-		if placeholder < 1 {
-			p.errorf("invalid placeholder %d; must be 1 or greater", placeholder)
+		if placeholder < 1 || placeholder > math.MaxInt32 {
+			p.errorf("invalid placeholder %d; must be between 1 and %d", placeholder, math.MaxInt32)
 		}
 	case itemValue:
 		value = decodeString(p.next().val)
@@ -264,7 +274,11 @@ func decodePlaceholder(s string) int {
 		return 0
 	}
 
-	i, _ := strconv.Atoi(s[1:])
+	i, err := strconv.Atoi(s[1:])
+	if err != nil {
+		// not a number, or too large for an int: not a valid placeholder
+		return 0
+	}
 	return i
 }
 
@@ -353,6 +367,13 @@ func (l *lexer) run() {
 	for l.state = lexText; l.state != nil; {
 		l.state = l.state(l)
 	}
+	close(l.items)
+}
+
+// drain receives the items the lexer has not delivered yet, until it has terminated.
+func (l *lexer) drain() {
+	for range l.items {
+	}
 }
 
 func lexText(l *lexer) stateFn {
@@ -430,9 +451,10 @@ func lexValue(l *lexer) stateFn {
 		}
 	}
 
-	if seenFinalQuote || r != eof {
-		l.emit(itemValue)
+	if !seenFinalQuote {
+		return l.errorf("unterminated string")
 	}
+	l.emit(itemValue)
 	return lexText
 }
 
